@@ -105,7 +105,15 @@ func p7Summary(p *pkcs7.PKCS7) []string {
 
 func init() {
 	implOps["p7_verify"] = func(a []string) []string {
-		p, err := pkcs7.ParsePKCS7(unhx(a[0]))
+		blob := unhx(a[0])
+		orig := append([]byte{}, blob...)
+		// whatever happens below, the caller's bytes stay what they were
+		defer func() {
+			if !bytes.Equal(blob, orig) {
+				panic("the caller's blob was modified")
+			}
+		}()
+		p, err := pkcs7.ParsePKCS7(blob)
 		if err != nil {
 			return []string{"err-parse"}
 		}
@@ -767,6 +775,31 @@ func p7Mutants(s p7Seed, rng *rand.Rand, nflip int) [][2]interface{} {
 	})
 	// Authenticode: replace the PE digest inside SpcIndirectDataContent and, to
 	// make the forgery self-consistent, nothing else (messageDigest then mismatches)
+	// Authenticode: the DigestInfo names another algorithm (legacy SHA-1 signatures do)
+	edit("spc-digest-alg-sha1", func(sd *dnode) bool {
+		o := sd.at(2, 1, 0, 1, 0, 0)
+		if o == nil || o.tag != 0x06 {
+			return false
+		}
+		o.val = []byte{0x2b, 0x0e, 0x03, 0x02, 0x1a}
+		if d := sd.at(2, 1, 0, 1, 1); d != nil && d.tag == 0x04 && rng.Intn(2) == 0 {
+			d.val = randBytes(rng, 20)
+		}
+		return true
+	})
+	// CMS version 3 signer identified by a subjectKeyIdentifier instead of issuer and serial
+	edit("signer-sid-subjectkeyid", func(sd *dnode) bool {
+		sis := signerInfos(sd)
+		if sis == nil || len(sis.children) == 0 || len(sis.children[0].children) < 2 {
+			return false
+		}
+		si := sis.children[0]
+		if v := si.children[0]; v.tag == 0x02 {
+			v.val = []byte{3}
+		}
+		si.children[1] = &dnode{tag: 0x80, val: randBytes(rng, 20)}
+		return true
+	})
 	edit("spc-digest-swap", func(sd *dnode) bool {
 		d := sd.at(2, 1, 0, 1, 1)
 		if d == nil || d.tag != 0x04 || len(d.val) != 32 {
